@@ -558,6 +558,12 @@ func (o *operation) handle() {
 			return
 		}
 		skipBody = !hasBody
+		// The builder returns the path in its encoded form.
+		if unescaped, unescErr := url.PathUnescape(o.request.URL.Path); unescErr == nil && unescaped != o.request.URL.Path {
+			o.request.URL.Path, o.request.URL.RawPath = unescaped, o.request.URL.Path
+		} else {
+			o.request.URL.RawPath = ""
+		}
 		// Recompute if the server needs to prep the request, now that we've modified
 		// properties of op.request.
 		if o.serverPreparer != nil {
@@ -566,6 +572,7 @@ func (o *operation) handle() {
 	} else {
 		// if no request line builder, use simple request layout
 		o.request.URL.Path = o.methodConf.methodPath
+		o.request.URL.RawPath = ""
 		o.request.URL.RawQuery = ""
 		o.request.Method = http.MethodPost
 	}
@@ -612,7 +619,8 @@ func (o *operation) resolveMethod(transcoder *Transcoder) error {
 	uriPath := o.request.URL.Path
 	if o.client.protocol.protocol() == ProtocolREST {
 		var methods routeMethods
-		o.restTarget, o.restVars, methods = transcoder.restRoutes.match(uriPath, o.request.Method)
+		// match on the still-encoded path: captures are unescaped exactly once by the route trie
+		o.restTarget, o.restVars, methods = transcoder.restRoutes.match(o.request.URL.EscapedPath(), o.request.Method)
 		if o.restTarget != nil {
 			o.methodConf = o.restTarget.config
 			return nil
